@@ -9,12 +9,21 @@ from tools import k2v
 def run():
     rc = 0
     # translator outputs (needed before the Coq units compile)
-    for name, args in k2v.DEFAULT_OUTPUTS.items():
-        try:
-            k2v.GENERATORS[name](*[os.path.join(C.VERIF, a) for a in args])
-            print(f"[setup] k2v {name}: ok")
-        except k2v.GenError as e:
-            print(f"[setup] k2v {name}: {e}")
+    import importlib
+    mods = [k2v]
+    for f in sorted(os.listdir(os.path.join(C.VERIF, "tools"))):
+        if f.startswith("k2v_") and f.endswith(".py"):
+            mods.append(importlib.import_module("tools." + f[:-3]))
+    for m in mods:
+        for name, args in m.DEFAULT_OUTPUTS.items():
+            try:
+                # generated Coq files go to the (possibly mirrored) Coq root
+                outs = [os.path.join(C.COQ, a[len("coq/"):]) if a.startswith("coq/") else os.path.join(C.VERIF, a)
+                        for a in args]
+                m.GENERATORS[name](*outs)
+                print(f"[setup] k2v {name}: ok")
+            except k2v.GenError as e:
+                print(f"[setup] k2v {name}: {e}")
     # rust harness: all binaries
     with C.Lock("cargo-" + C.repo_tag()):
         crate = C.harness_prepare()
